@@ -206,20 +206,21 @@ structure St where
 
 def St.init : St := ⟨[], false, false⟩
 
+/-- `try_fast_path` (the default user has unrestricted keys); never during MULTI -/
+def fastPath (h : Nat) (inTx : Bool) (buf : Bytes) : Recog :=
+  if inTx then .notFast
+  else if buf.length < 12 then .notFast
+  else
+    match recogGet h buf with
+    | .notFast => recogSet h buf
+    | r => r
+
 /-- the sequential loop: `try_execute_command` until NeedMoreData / ParseError.
     Returns actions, remaining buffer, in_transaction, crashed? -/
 def seqLoop (cfg : Config) : Nat → Bytes → Bool → List Action × Bytes × Bool × Bool
   | 0, buf, inTx => ([], buf, inTx, false)
   | f + 1, buf, inTx =>
-    -- try_fast_path (the default user has unrestricted keys); never during MULTI
-    let fast : Recog :=
-      if inTx then .notFast
-      else if buf.length < 12 then .notFast
-      else
-        match recogGet cfg.headerLen buf with
-        | .notFast => recogSet cfg.headerLen buf
-        | r => r
-    match fast with
+    match fastPath cfg.headerLen inTx buf with
     | .get key total =>
       let (as, r, tx, cr) := seqLoop cfg f (buf.drop total) inTx
       (.exec (getFrame key) .fast :: as, r, tx, cr)
@@ -237,6 +238,24 @@ def seqLoop (cfg : Config) : Nat → Bytes → Bool → List Action × Bytes × 
       | .error _ => ([.protoErr], [], inTx, false)
       | .crash _ => ([.crash], [], inTx, true)
 
+/-- actions for the frames a collector consumed: executed as one batch if there are at least
+    `batch_threshold` of them, otherwise nothing happens with them -/
+def batchActs (cfg : Config) (fs : List Val) : List Action :=
+  if fs.length ≥ cfg.batchThreshold then fs.map (fun g => Action.exec g .batch) else fs.map Action.dropped
+
+/-- the batching gate in front of the sequential loop; `none` = a collector panicked -/
+def batchGate (cfg : Config) (inTx : Bool) (fuel : Nat) (buf : Bytes) : Option (List Action × Bytes) :=
+  if buf.length ≥ cfg.minPipeline ∧ ¬ inTx then
+    match collectGet cfg.headerLen fuel buf with
+    | none => none
+    | some (gets, b1) =>
+      if b1.length ≥ cfg.minPipeline then
+        match collectSet cfg.headerLen fuel b1 with
+        | none => none
+        | some (sets, b2) => some (batchActs cfg gets ++ batchActs cfg sets, b2)
+      else some (batchActs cfg gets, b1)
+  else some ([], buf)
+
 /-- one `read()` of at most `readSize` bytes -/
 def onRead (cfg : Config) (st : St) (chunk : Bytes) : St × List Action :=
   if st.closed then (st, [])
@@ -244,24 +263,7 @@ def onRead (cfg : Config) (st : St) (chunk : Bytes) : St × List Action :=
   else
     let buf := st.buf ++ chunk
     let fuel := buf.length + 1
-    -- batching gate
-    let gate : Option (List Action × Bytes) :=
-      if buf.length ≥ cfg.minPipeline ∧ ¬ st.inTx then
-        match collectGet cfg.headerLen fuel buf with
-        | none => none
-        | some (gets, b1) =>
-          let a1 := if gets.length ≥ cfg.batchThreshold then gets.map (fun g => Action.exec g .batch)
-                    else gets.map Action.dropped
-          if b1.length ≥ cfg.minPipeline then
-            match collectSet cfg.headerLen fuel b1 with
-            | none => none
-            | some (sets, b2) =>
-              let a2 := if sets.length ≥ cfg.batchThreshold then sets.map (fun g => Action.exec g .batch)
-                        else sets.map Action.dropped
-              some (a1 ++ a2, b2)
-          else some (a1, b1)
-      else some ([], buf)
-    match gate with
+    match batchGate cfg st.inTx fuel buf with
     | none => (⟨[], st.inTx, true⟩, [.crash])
     | some (a, b) =>
       let (as, r, tx, cr) := seqLoop cfg fuel b st.inTx
